@@ -657,6 +657,8 @@ func checkC13(c *Ctx) {
 	checkBodyNotShared(c, "R10")
 	c.Rule("R11", "compressed and decompressed values are copied out of the pooled work buffers before those are released (shared with C19.R11)")
 	checkPooledBytesEscape(c, "R11")
+	c.Rule("R12", "no rewriting without a compression section: the decompression hook is registered only on the non-nil side of a test of the compression configuration")
+	checkDecompressOnlyWhenConfigured(c, "R12")
 }
 
 // checkCpsHeader: writer builds magic ‖ alg ‖ CRLF; reader tests/strips the same offsets.
@@ -1067,5 +1069,82 @@ func checkBodyNotShared(c *Ctx, rule string) {
 	}
 	if n == 0 {
 		c.Unresolved(rule, "no construction of a simpleRequest")
+	}
+}
+
+// checkDecompressOnlyWhenConfigured (C13.R12, C03.R11): replies are rewritten by the decompression hook only for a
+// service that has a compression section. Without one, a value that merely starts with the magic header and a valid
+// stream must be relayed byte for byte. The registration of the hook is dominated by the non-nil side of a test of the
+// compression configuration.
+func checkDecompressOnlyWhenConfigured(c *Ctx, rule string) {
+	p := c.P
+	doFn := p.Func(redisPkg, "(*compressFilter).Do")
+	dec := p.Func(redisPkg, "(*compressFilter).Decompress")
+	if doFn == nil || dec == nil {
+		c.Unresolved(rule, "compressFilter.Do / Decompress")
+		return
+	}
+	n := 0
+	for _, fn := range append([]*ssa.Function{doFn}, staticCalleesDeep(doFn, 1)...) {
+		if fn.Blocks == nil || !isModFn(fn) {
+			continue
+		}
+		eachInstr(fn, func(b *ssa.BasicBlock, _ int, in ssa.Instruction) {
+			cc := callOf(in)
+			if cc == nil || calleeFn(cc) == nil || calleeFn(cc).Name() != "RegisterHook" || len(cc.Args) < 2 {
+				return
+			}
+			h := funcValue(cc.Args[1])
+			if h == nil {
+				return
+			}
+			callsDec := false
+			for _, hf := range append([]*ssa.Function{h}, staticCalleesDeep(h, 2)...) {
+				if hf == dec {
+					callsDec = true
+				}
+			}
+			if !callsDec {
+				return
+			}
+			n++
+			site := fmt.Sprintf("%s decompression hook#%d registered only with a compression section", fnKey(fn), n)
+			guarded := false
+			for _, d := range fn.Blocks {
+				iff, ok := d.Instrs[len(d.Instrs)-1].(*ssa.If)
+				if !ok {
+					continue
+				}
+				bo, ok := iff.Cond.(*ssa.BinOp)
+				if !ok || (bo.Op != token.EQL && bo.Op != token.NEQ) || !isNilConst(bo.Y) {
+					continue
+				}
+				isCfg := derives(bo.X, func(v ssa.Value) bool {
+					if call, ok := v.(*ssa.Call); ok {
+						if g := calleeFn(call.Common()); g != nil && (g.Name() == "GetCompression") {
+							return true
+						}
+					}
+					if f, _ := loadedField(v); f != nil && f.Name() == "Compression" {
+						return true
+					}
+					return false
+				})
+				if !isCfg {
+					continue
+				}
+				k := 1
+				if bo.Op == token.NEQ {
+					k = 0
+				}
+				if sb := d.Succs[k]; len(sb.Preds) == 1 && (sb == b || sb.Dominates(b)) {
+					guarded = true
+				}
+			}
+			c.Check(guarded, rule, site, in.Pos(), "dominated by the non-nil side of a test of the compression configuration", "the decompression hook is registered although the service has no compression section: every reply that starts with the magic header and a well-formed stream is rewritten - a client that stored such bytes reads something else back, on a proxy that was never asked to compress")
+		})
+	}
+	if n == 0 {
+		c.Unresolved(rule, "no registration of the decompression hook")
 	}
 }
